@@ -13,6 +13,8 @@ CONSTANTS
   MINPKS2 = 2
   NCAP = 0
   ALLHITS = FALSE
+  NSAVE = 0
+  FRESH = TRUE
 INVARIANT GaRange
 INVARIANT AcceptedScore
 INVARIANT GrainCap
